@@ -370,6 +370,29 @@ theorem C12_origin_and_propagated (decls : List QDecl) (n : Name) (own inherited
       obtain ⟨hp1, hp2⟩ := List.mem_filter.mp hp
       exact Or.inr (Or.inr ⟨p, hp1, by simpa using hp2, rfl⟩)
 
+
+/-- **Whatever class_origin / propagated the client left on a submitted element is ignored**: the
+    resolved element does not depend on them (a stale class_origin from a GetClass of another class
+    cannot survive CreateClass / ModifyClass / add_cimobjects). -/
+theorem C12_client_origin_propagated_ignored (decls : List QDecl) (n : Name) (e : Elem)
+    (o : Option Name) (p : Option Bool) :
+    (∀ supE, resolveElem decls n supE { e with origin := o, propagated := p } = resolveElem decls n supE e) ∧
+    setNewElem decls n { e with origin := o, propagated := p } none = setNewElem decls n e none := by
+  have h : ∀ inh, setNewElem decls n { e with origin := o, propagated := p } inh = setNewElem decls n e inh := by
+    intro inh; cases inh <;> rfl
+  exact ⟨fun supE => by unfold resolveElem; simp only [h, overrideMismatch]; rfl, h none⟩
+
+/-- the cloning scenario: an element submitted with a stale class_origin (`Base`, from a GetClass of
+    another class) and propagated=True resolves exactly like the clean declaration; a new element of
+    `Sub` gets class_origin `Sub` -/
+example : resolveElems [wOverride, wDesc] wSub.name
+      [{ wSubR with origin := some ['B','a','s','e'], propagated := some true }] (some [wBaseP]) =
+    resolveElems [wOverride, wDesc] wSub.name [wSubR] (some [wBaseP]) ∧
+    (okOr (resolveElems [wOverride, wDesc] wSub.name
+      [{ wSubR with origin := some ['B','a','s','e'], propagated := some true }] (some [wBaseP])) []).map
+        (fun e => (e.name, e.origin, e.propagated)) =
+      [(['r'], some ['S','u','b'], some false), (['p'], some ['B','a','s','e'], some true)] := by decide
+
 /- Full statement demanded by the property:
      ∀ e ∈ r, e.propagated = some true ↔ (the class does not declare e)
    It fails on the code (and on the model mirroring it) for overriding elements; proved for classes
